@@ -12,6 +12,7 @@ package distinct
 // (known finding F8, decided by the deductive check with its region).
 
 import (
+	"fmt"
 	"math"
 	"math/bits"
 	"os"
@@ -43,6 +44,8 @@ func TestGovcBoundedDistinct(t *testing.T) {
 	if bound == 0 {
 		bound = 12
 	}
+	cases := 0
+	defer func() { fmt.Printf("GOVC-CASES=%d\n", cases) }()
 	for size := 2; size <= bound; size++ {
 		c := NewCounter[int](size)
 		if c == nil || c.buf == nil || c.rng == nil || c.cap != size || c.p != math.MaxUint64 || c.Len() != 0 || c.Count() != 0 {
@@ -56,6 +59,7 @@ func TestGovcBoundedDistinct(t *testing.T) {
 				for r := 0; r < reps; r++ {
 					for v := 0; v < size-1; v++ {
 						c.Add(v*7 + 1)
+						cases++
 						seen[v*7+1] = true
 						if c.Len() != len(seen) || c.Count() != uint64(len(seen)) {
 							t.Fatalf("size %d, %d distinct values added (repeat %d): Len %d Count %d, want both %d", size, len(seen), r, c.Len(), c.Count(), len(seen))
@@ -70,6 +74,7 @@ func TestGovcBoundedDistinct(t *testing.T) {
 				for v := 0; v < 6*size; v++ {
 					c.Add(1000 + v)
 					c.Add(1000 + v/2)
+					cases += 2
 					k = govcCheckCounter(t, c, size, k)
 				}
 				c.Reset()
